@@ -424,7 +424,8 @@ MUTANTS = [
     V('c20-macros-case-sensitive', 'configgen/vscode/resources/tmGrammar.json', '"begin": "(?i)(##MACROS##)",', '"begin": "(##MACROS##)",', 'C20.5'),
     V('c20-model-set-updated-via-alias', 'configgen/vscode/__init__.py', "        grammar_json['scopeName'] = scope_name\n", "        grammar_json['scopeName'] = scope_name\n        every = self.model.instruction_mnemonics\n        every.update(self.model.macro_mnemonics)\n", 'C20.6'),
     V('c20-zip-append', _S, "        archive_file = ZipFile(archive_fp, 'w')", "        archive_file = ZipFile(archive_fp, 'a')", 'C20.4'),
-    V('c20-discarded-replace', _V, "        color_theme_xml = color_theme_xml.replace('##LANGUAGE_ID##', self.language_id)", "        color_theme_xml.replace('##LANGUAGE_ID##', self.language_id)", 'C20.1'),
+    V('c20-discarded-replace', _V, "        color_theme_xml = color_theme_xml.replace('##LANGUAGE_ID##', xml_escape(self.language_id))", "        color_theme_xml.replace('##LANGUAGE_ID##', xml_escape(self.language_id))", 'C20.1'),
+    V('c20-theme-unescaped', _V, "        color_theme_xml = color_theme_xml.replace('##LANGUAGE_ID##', xml_escape(self.language_id))", "        color_theme_xml = color_theme_xml.replace('##LANGUAGE_ID##', self.language_id)", 'C20.4'),
     V('c20-no-escape', _C, "join([re.escape(r) for r in regex_list])", "join(regex_list)", 'C20.2'),
     V('c20-escape-wrong-var', _C, "        regex_str = '\\\\b' + '\\\\b|\\\\b'.join([re.escape(r) for r in regex_list]) + '\\\\b'", "        escaped = [re.escape(r) for r in regex_list]\n        ordered = sorted(regex_list, key=len, reverse=True)\n        regex_str = '\\\\b' + '\\\\b|\\\\b'.join(ordered if len(ordered) > 1 else escaped) + '\\\\b'", 'C20.2'),
     V('c20-macros-from-operations', _V, "                '##MACROS##',\n                self.model.macro_mnemonics", "                '##MACROS##',\n                self.model.operation_mnemonics", 'C20.3'),
